@@ -47,4 +47,5 @@ revert_log_live_entry C16
 revert_ctx_ttl_atomic C16
 revert_invalidator_check_unlocked C16
 revert_plain_expired C03
+revert_expireall_restamp C03 C07 C11
 LIST
